@@ -81,10 +81,11 @@ const (
 	HowFromBytes        // zero value + FromBytes(text)
 	HowReSet            // FromBytes(other text) then Set(v): stale cached text must not survive
 	HowKVSet            // KeyValue.Set(NewX(v)) replacing the value object
+	HowParseClearSet    // FromBytes(text of v), Set(nil), Set(v): cleared and set again to the value it had
 	NHow
 )
 
-var HowNames = [...]string{"New", "Set", "FromBytes", "FromBytesThenSet", "KeyValue.Set(New)"}
+var HowNames = [...]string{"New", "Set", "FromBytes", "FromBytesThenSet", "KeyValue.Set(New)", "FromBytes,Set(nil),Set(same)"}
 
 // Pop is the population of one node.
 type Pop struct {
@@ -195,7 +196,7 @@ type Opts struct {
 func DefaultOpts() Opts {
 	return Opts{MaxDepth: 4, MaxWidth: 5, Kinds: []Kind{KString, KInt, KUint, KFloat, KTime, KBool, KRaw},
 		Decoys: true, RelatedTags: true, Trailer: true, AllowUnset: true, MaxStrLen: 24, MaxEntries: 3,
-		HowSet: []int{HowNew, HowSet, HowFromBytes, HowReSet, HowKVSet}, PopulateProb: 0.7}
+		HowSet: []int{HowNew, HowSet, HowFromBytes, HowReSet, HowKVSet, HowParseClearSet}, PopulateProb: 0.7}
 }
 
 type tagPool struct {
@@ -668,6 +669,24 @@ func buildField(p *Pop, be *BuildErr) *fix.KeyValue {
 		kv := fix.NewKeyValue(n.Tag, zeroValue(n.VK))
 		if err := kv.FromBytes([]byte(otherText(n.VK))); err != nil {
 			be.add("FromBytes(%q) on %s: %v", otherText(n.VK), n.VK, err)
+		}
+		if err := kv.Value.Set(goValue(p.Val)); err != nil {
+			be.add("Set on %s: %v", n.VK, err)
+		}
+		return kv
+	case HowParseClearSet:
+		kv := fix.NewKeyValue(n.Tag, zeroValue(n.VK))
+		text := p.Val.Text()
+		if p.Val.K == KFloat {
+			text = strconv.FormatFloat(p.Val.F, 'f', -1, 64)
+		}
+		if err := kv.FromBytes([]byte(text)); err != nil {
+			be.add("FromBytes(%q) on %s: %v", text, n.VK, err)
+		}
+		if n.VK != KRaw { // Raw has no way to be cleared through Set
+			if err := kv.Value.Set(nil); err != nil {
+				be.add("Set(nil) on %s: %v", n.VK, err)
+			}
 		}
 		if err := kv.Value.Set(goValue(p.Val)); err != nil {
 			be.add("Set on %s: %v", n.VK, err)
